@@ -66,6 +66,7 @@ pub struct Arena {
 impl Arena {
     /// `size` accessible bytes (rounded up to pages).
     pub fn new(size: usize) -> Arena {
+        let _ = size;
         let heap = heap_mode();
         if heap {
             return Arena { lo: std::ptr::null_mut(), hi: std::ptr::null_mut(), live: None, heap };
